@@ -366,8 +366,9 @@ fn build_arguments<'b, 'r, 'c, 's:'c, 'm:'c>(
 fn lift_function_name<'m>(doc: Document<'m>, function_name: Element<'m>, children: Vec<Element<'m>>) -> Element<'m> {
     // debug!("    lift_function_name: {}", name(&function_name));
     // debug!("    lift_function_name: {}", mml_to_string(&function_name));
-    if is_leaf(function_name) {
+    if is_leaf(function_name) && function_name.children().iter().all(|child| child.text().is_some()) {
         // simple/normal case of f(x,y)
+        // (a name that is also the name of a MathML token element, already applied once -- mi($a)($b) -- is not this case: it has the arguments as children)
         set_mathml_name(function_name, as_text(function_name));
         function_name.set_text("");
         function_name.replace_children(children);
